@@ -40,7 +40,7 @@ Definition rollback_only : fixes := {| fix_rollback := true; fix_defer := false 
 Definition repaired : fixes := {| fix_rollback := true; fix_defer := true |}.
 
 (* the tree the correspondence check is run against (one line to change when /repo is repaired) *)
-Definition tree : fixes := pinned.
+Definition tree : fixes := repaired.
 
 Inductive outcome :=
 | Parsed (cfg : cfgmap)                       (* parse_section('root') is True *)
